@@ -56,7 +56,7 @@ REQUIRED_MONITORS = ['writer_vs_encoder', 'write_positions', 'strip_tif', 'read_
                      'contract:PhysRecRead.readLrBytes', 'contract:PhysRecRead.skipLrBytes', 'contract:PhysRecRead.skipToNextLr',
                      'contract:PhysRecRead.seekLr', 'contract:TifMarkerRead._read', 'contract:TifMarkerRead.reset']
 MIN_NONTRIVIAL = {'quick': 200, 'thorough': 5000}
-TIMEOUT_S = {'quick': 300, 'thorough': 3000}
+TIMEOUT_S = {'quick': 300, 'thorough': 5400}
 NSHARDS = 16
 FILES = {'quick': 60, 'thorough': 2500}            # random files per shard
 EXH_LMAX = {'quick': 3, 'thorough': 4}
@@ -780,7 +780,7 @@ def record_plans(L):
     return out
 
 
-def exhaustive(ctl, T, G, part, parts, lmax, combos):
+def exhaustive(ctl, T, G, part, parts, lmax, combos, with_contracts=False):
     rec = ctl.rec
     File = T['File']
     plans = {L: record_plans(L) for L in range(2, lmax + 1)}
@@ -789,7 +789,7 @@ def exhaustive(ctl, T, G, part, parts, lmax, combos):
     mine = configs[part::parts]
     evals = nt = nops = 0
     label = 'read/skip splits: 2 records L1,L2 in 2..%d x capacity 1..%d x trailer combinations %s x tif none/normal/reversed x all plans' % (
-        lmax, lmax, ','.join(map(str, combos)))
+        lmax, lmax, ','.join(map(str, combos))) + (' [icontract postconditions active]' if with_contracts else '')
     sample = None
     stop = False
     for (L1, L2, cap, combo, tif) in mine:
@@ -845,7 +845,8 @@ def exhaustive(ctl, T, G, part, parts, lmax, combos):
                     sample = {'file': info, 'target': target, 'plan': [list(o) for o in p1 + p2], 'observed': [list(h) for h in hist]}
             if stop:
                 break
-        drain_contracts(ctl, T, info, model)
+        if with_contracts:
+            drain_contracts(ctl, T, info, model)
         if stop:
             break
     rec.mon('exhaustive_splits', evals)
@@ -854,8 +855,10 @@ def exhaustive(ctl, T, G, part, parts, lmax, combos):
     rec.bulk_cases(label, evals, nt, exhaustive=not stop, sample=sample)
     rec.add('exhaustive_histories', evals)
     rec.add('exhaustive_operations', nops)
-    rec.maxi('max_exhaustive_distinct_operation_plans', sum(len(plans[a]) * len(plans[b]) for a in plans for b in plans))
+    rec.maxi('max_exhaustive_distinct_operation_sequences', sum(len(plans[a]) * len(plans[b]) for a in plans for b in plans))
     rec.add('exhaustive_file_configurations', len(mine))
+    if with_contracts:
+        rec.add('exhaustive_histories_with_contracts', evals)
 
 
 # ------------------------------------------------------------------------------------------------ shard
@@ -867,7 +870,6 @@ def run_shard(ctx, p):
     from tdv.gen import lis_phys as G
     from tdv.mon import contracts
     from tdv.mon.tap import TapFile, CaptureIO
-    contracts.install_lis_physrec_contracts()
     T = {'File': File, 'PhysRec': PhysRec, 'DeTif': DeTif, 'TapFile': TapFile, 'CaptureIO': CaptureIO, 'contracts': contracts}
     rec = ctx.rec
     ctl = Ctl(rec)
@@ -880,9 +882,16 @@ def run_shard(ctx, p):
             part, only = f['part'], f['file_index']
         except Exception:
             only = None
+    quick_combos = sorted({0, 7, 1 + ctx.seed % 6})
     if only is not None and only >= 0:
+        contracts.install_lis_physrec_contracts()
         do_file(ctl, T, G, ctx.seed, part, only, ctx.tier)
     else:
+        if ctx.tier == 'thorough':
+            # the large enumeration runs before the icontract wrappers are installed (they cost ~4x per operation);
+            # the smaller enumeration below and all random histories run with the contracts in place
+            exhaustive(ctl, T, G, part, parts, p['lmax'], p.get('combos') or list(range(8)))
+        contracts.install_lis_physrec_contracts()
         for fi in range(p['files']):
             do_file(ctl, T, G, ctx.seed, part, fi, ctx.tier)
             if sum(ctl.nviol.values()) > 200:
@@ -892,7 +901,10 @@ def run_shard(ctx, p):
                 do_wrap_file(ctl, T, G, ctx.seed, part, (ctx.seed & 1) | (2 if part else 0) | (4 if ctx.seed & 2 else 0))
         elif part < 8:
             do_wrap_file(ctl, T, G, ctx.seed, part, part)
-        exhaustive(ctl, T, G, part, parts, p['lmax'], p.get('combos') or list(range(8)))
+        if ctx.tier == 'thorough':
+            exhaustive(ctl, T, G, part, parts, EXH_LMAX['quick'], quick_combos, with_contracts=True)
+        else:
+            exhaustive(ctl, T, G, part, parts, p['lmax'], p.get('combos') or quick_combos, with_contracts=True)
     # ---- evidence
     rec.add('histories', ctl.histories)
     rec.add('operations', ctl.operations)
